@@ -3,7 +3,10 @@
 
 def reduce_no_initial(function, sequence):
     it = iter(sequence)
-    value = next(it)
+    try:
+        value = next(it)
+    except StopIteration:
+        raise TypeError('reduce() of empty iterable with no initial value')
     for element in it:
         value = function(value, element)
     return value
